@@ -33,6 +33,8 @@ class C14(EngineBase):
                               ["Z2Z2"], ["U1U1"], ["Z2", "U1"]]),
             "n_macro": r.choice([8, 12, 18]) if tier == "quick" else r.choice([12, 20, 30]),
             "wseed": r.randrange(2**31),
+            # thorough: some calls are crashed at *every* line, not one
+            "p_all_lines": (0.15 if tier == "thorough" and crash_batch else 0.0),
         }
 
     def start(self, config):
@@ -64,6 +66,8 @@ class C14(EngineBase):
                     and s["op"] not in ("new", "newvec", "del")
                     and rng.random() < cfg["p_crash"]):
                 s["crash"] = rng.random()
+                if rng.random() < cfg.get("p_all_lines", 0.0):
+                    s["crash_all"] = True
         return steps + new
 
     # ------------------------------------------------------------- execute
@@ -228,6 +232,30 @@ class C14(EngineBase):
         AC._fuseinfos.update(saved)
         AC._fi_hit, AC._fi_missed, AC._fi_missed_too_long = counters
         core.clear_lru()
+        if step.get("crash_all") and "crash_n" not in step and total:
+            # enumerate every crash line of this call; the first line at which
+            # an operand is found modified is recorded as the concrete point
+            for n in range(1, min(total, 4000) + 1):
+                AC._fuseinfos.clear()
+                AC._fuseinfos.update(saved)
+                core.clear_lru()
+                fired, _, exc = inject.run_crashing(lambda: ops.run_step(step, heap), n)
+                if isinstance(exc, HarnessError):
+                    raise exc
+                if fired is None:
+                    break
+                st.stats["fault.crash"] += 1
+                st.stats["fault.crash_enumerated"] += 1
+                try:
+                    self._compare_heap(st, before, step, what="crash")
+                except Violation:
+                    step["crash_n"] = n
+                    step.pop("crash_all", None)
+                    raise
+            AC._fuseinfos.clear()
+            AC._fuseinfos.update(saved)
+            core.clear_lru()
+            step.pop("crash_all", None)
         if "crash_n" not in step:
             step["crash_n"] = 1 + int(step["crash"] * total) if total else 0
         n = step["crash_n"]
